@@ -136,11 +136,10 @@ Definition place (n j0 : nat) (row : list A) : list A := set_slice (repeat zero 
          for it in range(templates_l[i].shape[0]):
              one_template = zeros((n_samples, n_channels)) ; one_template[:, j0:j1] = templates_l[i][it]
              fid.write(one_template.tobytes())                                                  *)
-Definition tmpl := list (list A).              (* [sample][channel] *)
-Definition tshape1 (T : list tmpl) : nat := match T with t :: _ => length t | [] => 0%nat end.
-Definition tshape2 (T : list tmpl) : nat := match T with (r :: _) :: _ => length r | _ => 0%nat end.
+Definition tshape1 (T : list (list (list A))) : nat := match T with t :: _ => length t | [] => 0%nat end.
+Definition tshape2 (T : list (list (list A))) : nat := match T with (r :: _) :: _ => length r | _ => 0%nat end.
 
-Definition write_templates (Ts : list (list tmpl)) : option (list tmpl) :=
+Definition write_templates (Ts : list (list (list (list A)))) : option (list (list (list A))) :=
   match Ts with
   | [] => None
   | T0 :: _ =>
@@ -158,15 +157,14 @@ Definition write_templates (Ts : list (list tmpl)) : option (list tmpl) :=
      out = zeros((sum rows, sum cols)) ; r = c = 0
      for arr: out[r:r+rr, c:c+cc] = arr ; r += rr ; c += cc
    and FileNotFoundError in any probe -> the merged file is not written                          *)
-Definition matrix := list (list A).
-Definition mcols (M : matrix) : nat := match M with r :: _ => length r | [] => 0%nat end.
+Definition mcols (M : list (list A)) : nat := match M with r :: _ => length r | [] => 0%nat end.
 
-Fixpoint bd_loop (ncols c0 : nat) (Ms : list matrix) : matrix :=
+Fixpoint bd_loop (ncols c0 : nat) (Ms : list (list (list A))) : list (list A) :=
   match Ms with
   | [] => []
   | M :: rest => map (place ncols c0) M ++ bd_loop ncols (c0 + mcols M) rest
   end.
-Definition block_diag (Ms : list matrix) : matrix := bd_loop (nsum (map mcols Ms)) 0 Ms.
+Definition block_diag (Ms : list (list (list A))) : list (list A) := bd_loop (nsum (map mcols Ms)) 0 Ms.
 
 Fixpoint all_some {B} (l : list (option B)) : option (list B) :=
   match l with
@@ -174,7 +172,7 @@ Fixpoint all_some {B} (l : list (option B)) : option (list B) :=
   | Some x :: r => match all_some r with Some xs => Some (x :: xs) | None => None end
   | None :: _ => None
   end.
-Definition write_misc (Ms : list (option matrix)) : option matrix :=
+Definition write_misc (Ms : list (option (list (list A)))) : option (list (list A)) :=
   match all_some Ms with Some l => Some (block_diag l) | None => None end.
 End Poly.
 
